@@ -5,7 +5,9 @@ mod db;
 mod enc;
 mod hk;
 mod crash;
+mod sched;
 mod sqlrun;
+mod tracecmd;
 
 fn main() {
     // panics of the code under test are data, not noise
@@ -20,6 +22,8 @@ fn main() {
     let code = match args[1].as_str() {
         "sql" => sqlrun::main(&args[2..]),
         "crash" => crash::main(&args[2..]),
+        "trace" => tracecmd::main(&args[2..]),
+        "sched" => sched::main(&args[2..]),
         other => {
             eprintln!("unknown driver {other}");
             2
